@@ -30,6 +30,12 @@ def main(argv):
         'C01': lambda: props_lex.check_stream_props('C01', tier, seed),
         'C02': lambda: props_lex.check_stream_props('C02', tier, seed),
         'C03': lambda: props_lex.check_stream_props('C03', tier, seed),
+        'C04': lambda: props_lex.check_c04(tier, seed),
+        'C05': lambda: props_lex.check_c05(tier, seed),
+        'C06': lambda: props_lex.check_c06(tier, seed),
+        'C07': lambda: props_lex.check_c07(tier, seed),
+        'C13': lambda: props_lex.check_c13(tier, seed),
+        'C20': lambda: props_lex.check_c20(tier, seed),
     }
     if prop not in table:
         print('unknown property', prop)
